@@ -161,6 +161,15 @@ check("C14", "runtime monitoring: post-condition wrapper on Reck.map (unitary re
       "Trusted: numpy linear algebra; both nulling branches of the decomposition observed via a hook on bs_matrix.",
       "DESIGN.md 4 C14")
 
+check("C12", "runtime monitoring: post-condition on QiskitConverter.convert (dual-rail amplitude matrix of the returned circuit "
+      "over outputs accepted by heralds and returned rules, own permanent, vs qiskit Operator; leakage), refusals "
+      "recorded, over seeded random and structured qiskit circuits with both flag values",
+      "Held on the conversions explored (incl. three-qubit gate followed by a two-qubit gate on two of its qubits, "
+      "reversed non-adjacent cx, cascaded heralded gates): every returned circuit is one non-zero scalar times the qiskit "
+      "unitary on the accepted outputs with no leakage; everything else was refused with ValueError.",
+      "Trusted: qiskit.quantum_info.Operator, own permanent; conversions needing >8 (quick) / >10 (thorough) photons are "
+      "skipped and counted; leakage outputs sampled for large cases.", "DESIGN.md 4 C12")
+
 NOT_APPLICABLE = []
 _EXPLICIT_NA = {}
 for line in open("/verif/properties.jsonl"):
